@@ -298,8 +298,19 @@ def run_world(g, company, res):
             # deterministic user samplers for groups that share a random base sampler: what a condition draws depends on
             # the operation (condition, construction / evaluation number), not on the company
             torch.manual_seed(g["seed"] % (2 ** 30) + 1000 * i + op)
+        grad_before = torch.is_grad_enabled()
         try:
-            out = fn()
+            try:
+                out = fn()
+            finally:
+                grad_after = torch.is_grad_enabled()
+                torch.set_grad_enabled(True)
+            if grad_after != grad_before:
+                # process-wide state is company for every later condition: it has to be left as it was found
+                V.append(viol("global_state_changed", "%s of condition %d (%s) left torch's gradient mode %s (it was %s before)"
+                              % (what, i, g["conds"][i]["kind"], "enabled" if grad_after else "DISABLED", "enabled" if grad_before else "disabled"),
+                              **mech(i, what=what, state="grad_mode")))
+                return None, False
         except Inconclusive:
             raise
         except Exception as e:
